@@ -1,6 +1,9 @@
 SPECIFICATION Spec
+CONSTANT SharedTypeCompiledInPlace = TRUE
+CONSTANT World = "main"
 CONSTANT MaxLen = 2
 CONSTANT Export = TRUE
 INVARIANT Emit
 INVARIANT NoHistoryNeeded
+INVARIANT DeviationOnlyS5
 CHECK_DEADLOCK FALSE
